@@ -22,3 +22,12 @@ CASES += [
          edits=[(MT, "                     flag->store( true, std::memory_order_release);", "                     assert( !flag->exchange( true, std::memory_order_acq_rel));"),
                 (MT, "#include <atomic>", "#include <atomic>\n#include <cassert>")]),
 ]
+
+CASES += [
+    dict(id='c20-clear-relaxed', prop='C20', file=MT, expect='R2f',
+         old="                      flag->store( false, std::memory_order_release);", new="                      flag->store( false, std::memory_order_relaxed);"),
+    dict(id='c20-load-relaxed', prop='C20', file=MT, expect='R2f',
+         old="   return mActive.load( std::memory_order_acquire);", new="   return mActive.load( std::memory_order_relaxed);"),
+    dict(id='c20-eq-seq-cst-store', prop='C20', file=MT, expect=None,
+         old="                      flag->store( false, std::memory_order_release);", new="                      flag->store( false);"),
+]
